@@ -126,6 +126,11 @@ fn bases() -> Vec<Base> {
                             13 => vec![Some(1e-8), None],
                             _ => vec![None, Some(2.0 * span)],
                         };
+                        let mut fss = fss;
+                        if p == 0 && max_steps.is_some() {
+                            // a first step that is minute relative to the interval (1e-30 of it), under a step budget
+                            fss.push(Some(1e-30 * span));
+                        }
                         for first_step in fss {
                             v.push(Base { method: m, prob: p, backward, max_steps, min_step, first_step, teval: false, events: false });
                         }
